@@ -39,7 +39,7 @@ TEXTS = {
  "C15": T("K", "DESIGN.md 3.C15", "round-trip + lock-step differential: export -> validate -> import into an emptied store -> same suffix on both branches",
    "Export points drawn anywhere in generated histories (all statuses, extended rounds); validation, collection-by-collection equality and identical behaviour under a generated suffix. Exploration."),
  "C16": T("K", "DESIGN.md 3.C16", "stateful PBT: published flags/price vs observed transfers and reference clearing; query results vs model filter over all pages",
-   "Histories through extended rounds with outbidding; every settlement and a grid of Get*/List* requests (filters x pagination modes) are compared with the snapshot. Two listing defects are known findings (matched by exact signature). Exploration."),
+   "Histories through extended rounds with outbidding; every settlement and a grid of Get*/List* requests (filters x pagination modes) are compared with the snapshot. Two listing defects (auction_id ignored by two list queries) are known findings matched by exact signature; every other mismatch is reported. Exploration."),
  "C17": T("hooks", "DESIGN.md 3.C17", "fault enumeration: (hook method x failing position x occurrence x listener count) over a generated scenario with instrumented listeners",
    "Each of the 10 hook methods x every failing position for 1..4 listeners is covered many times per run; call count/order/values/timing checked without fault, veto semantics with fault. The grid is covered exhaustively in the quick tier (measured in classes); scenario parameters are sampled."),
  "C18": T("K+A", "DESIGN.md 3.C18", "model-based PBT: predictive acceptance predicate on perturbed messages + differential transaction-boundary check",
@@ -47,6 +47,6 @@ TEXTS = {
  "C19": T("K", "DESIGN.md 3.C19", "stateful PBT: frame snapshots + immutable terms + metamorphic projection onto one auction",
    "2-5 concurrent auctions sharing participants: untouched auctions bit-identical around every operation; agreed terms constant; ids sequential; the history projected onto one auction must evolve identically modulo renaming. Exploration."),
  "C20": T("CLI", "DESIGN.md 3.C20", "PBT over CLI argument vectors: typed args <-> generated tx round-trip, query request capture over loopback gRPC, real binary --help enumeration",
-   "Commands are enumerated from the built command tree; generated argument vectors over full field domains must round-trip through --generate-only; query commands (and aliases) must send the typed values and display the answer; the default-built binary must start and serve --help for every command. One configuration (default build). Display of responses with single Coin fields is a known finding (5 commands, exact signatures).",
+   "Commands are enumerated from the built command tree; generated argument vectors over full field domains must round-trip through --generate-only; query commands (and aliases) must send the typed values and display the answer; the default-built binary must start and serve --help for every command.; displayed answers must contain the stored values. One configuration (default build).",
    NOTE_K + " cosmos.Dec arguments are typed as 18-digit mantissas (client/v2 v2.0.0-beta.4 behaviour, assumption stated in DESIGN.md)."),
 }
